@@ -215,7 +215,19 @@ def harness_build():
         if rc2 == 0:
             open(stamp, 'w').write(now)
             return dict(ok=True, unit_hooks=False, build_s=dt + dt2, log=out[-3000:])
-        return dict(ok=False, unit_hooks=False, build_s=dt + dt2, log=(out[-3000:] + '\n----\n' + out2[-3000:]))
+        # the tree does not compile with the hook modules at all (e.g. a function the hooks wrap changed its signature): the hooks are
+        # instrumentation, not part of the library — build the library WITHOUT the guard (RUSTFLAGS from the environment take
+        # precedence over the harness's cargo configuration), in a target directory of its own; the system-level, flow-level and
+        # C ABI families do not need hooks, the unit-level ones report that they do
+        log('harness build with the hook modules failed; building the library without --cfg anoncreds_verif')
+        global VH
+        nohooks = os.path.join(HARNESS, 'target-nohooks')
+        rc3, out3, dt3 = sh(['cargo', 'build', '--offline', '--no-default-features', '--target-dir', nohooks], cwd=HARNESS, timeout=3600, env={'RUSTFLAGS': '--cfg anoncreds_verif_off'})
+        if rc3 == 0:
+            VH = os.path.join(nohooks, 'debug', 'vh')
+            os.environ['VH_NOHOOKS'] = '1'
+            return dict(ok=True, unit_hooks=False, no_hooks_at_all=True, build_s=dt + dt2 + dt3, log=out[-3000:])
+        return dict(ok=False, unit_hooks=False, build_s=dt + dt2 + dt3, log=(out[-3000:] + '\n----\n' + out2[-2000:] + '\n----\n' + out3[-2000:]))
 
 
 VH = os.path.join(HARNESS, 'target', 'debug', 'vh')
